@@ -478,6 +478,11 @@ class World:
                         "needless-kill": ("C11", "C04"), "zero-usage-victim": ("C11",),
                         "order": ("C11",), "overkill": ("C11",), "over-capacity": ("C04", "C11")}[kind]
                 self.problem(tags, "oom-" + kind, f"pool {k}: {msg}")
+            n_pl = sum(1 for c in conts if c["mc"].cid in obs_failed and c["mc"].cid is not None and not c["indiv"])
+            if n_pl > 8:
+                self.ev("ticks_with_more_than_8_pool_level_kills")
+            if n_pl > 1:
+                self.ev("ticks_with_several_pool_level_kills")
             for c in conts:
                 mc = c["mc"]
                 if mc.cid in obs_failed and mc.cid is not None:
